@@ -92,6 +92,9 @@ def library_like(pr2, phys, du_old, rng, ln_prior):
     cu = dict(P=scen.U(str(rng.choice(scen.TIME_UNITS))), omega=scen.U(str(rng.choice(["rad", "deg"]))),
               M0=scen.U(str(rng.choice(["rad", "deg"]))), s=scen.U(str(rng.choice(scen.VEL_UNITS))))
     lib = tj.JokerSamples(poly_trend=pr2.p, n_offsets=pr2.q)
+    if rng.random() < 0.25:
+        # a logarithmic unit (accepted by JokerSamples: dex(d) is "equivalent" to d): values convert by 10**x, not by a factor
+        cu["P"] = u.dex(u.day)
     lib["P"] = (phys["P"] * u.day).to(cu["P"])
     lib["e"] = phys["e"] * u.one
     lib["omega"] = (phys["omega"] * u.rad).to(cu["omega"])
@@ -181,6 +184,7 @@ def run_case(ctx, g):
         if pr2.q > 0:
             ctx.count("multi-survey twin with rv_err in another unit than rv")
     ctx.count(f"data_unit_ratio={cfac:g}"); ctx.count("P_unit=" + pr2.desc["P"]["unit"])
+
     ctx.count("K=" + pr.desc["K"]["kind"]); ctx.count(f"q={pr.q}"); ctx.count(f"p={pr.p}")
     inp = dict(base=dict(desc=pr.desc, surveys=[dict(unit=s["unit"], t=s["t"], rv=s["rv"], err=s["err"]) for s in pr.surveys]),
                twin=dict(desc=pr2.desc, surveys=[dict(unit=s["unit"]) for s in pr2.surveys], lib_units=lib2_units),
@@ -189,6 +193,8 @@ def run_case(ctx, g):
     seed = int(rng.integers(0, 2**31))
     path = str(rng.choice(["mem", "file"]))
     ctx.count("path=" + path)
+    if "dex" in lib2_units["P"]:
+        ctx.count("twin library with P in a logarithmic unit, path=" + path)
     res = []
     for P_, L_ in ((pr, lib), (pr2, lib2)):
         gen = rec.RecGen(seed)
@@ -289,5 +295,7 @@ def post(ctx):
         ctx.require("data unit changed", sum(v for k, v in c.items() if k.startswith("data_unit_ratio=") and k != "data_unit_ratio=1"), 5)
         ctx.require("P prior not in days", c["P_unit=yr"] + c["P_unit=hour"], 5)
         ctx.require("default-K problems", c["K=fcm"], 5)
+        ctx.require("twin libraries with the period column in dex(d), read through the cache file",
+                    c["twin library with P in a logarithmic unit, path=file"], 2)
         ctx.require("twins whose uncertainties are quoted in another unit than the velocities", c["twin with rv_err in another unit than rv"], 4)
         ctx.require("... of which multi-survey", c["multi-survey twin with rv_err in another unit than rv"], 2)
